@@ -187,6 +187,12 @@ func integerDivide(x, y any) (any, error) {
 	if xf, yf, ok := toFloatPair(x, y); ok {
 		r := math.Floor(xf / yf)
 
+		// xf / yf is rounded before it is floored and may have reached the
+		// next integer
+		if rem := math.FMA(-r, yf, xf); rem != 0 && (rem < 0) != (yf < 0) {
+			r--
+		}
+
 		if math.IsInf(r, 0) {
 			return nil, ErrInfinity
 		}
@@ -214,7 +220,13 @@ func integerDivide(x, y any) (any, error) {
 		}
 	}
 
-	r, _ := xd.QuoRem(yd)
+	r, rem := xd.QuoRem(yd)
+
+	// the quotient is truncated; like that of two floats it has to be rounded
+	// down
+	if !rem.IsZero() && !rem.IsNaN() && rem.Signbit() != yd.Signbit() {
+		r = r.Sub(decimal128.FromInt64(1))
+	}
 
 	if r.IsInf(0) {
 		return nil, ErrInfinity
